@@ -2,7 +2,7 @@
    input, what the implementation did (error | field dump + re-encoding); [c18_ok] recomputes
    the same observation from the model and compares (evaluated with vm_compute). *)
 From Coq Require Uint63.
-From DtlsV Require Import Lib.Bytes Gen.Generated Codec.C18Comb Codec.C18Rec Codec.C18Hs Codec.C18Rec13 Codec.C18Ext Codec.C18Kx.
+From DtlsV Require Import Lib.Bytes Gen.Generated Codec.C18Comb Codec.C18Rec Codec.C18Hs Codec.C18Rec13 Codec.C18Ext Codec.C18Kx Codec.C18Hello.
 Open Scope N_scope.
 
 (* Byte strings are written by the driver as (length, 7-byte big-endian chunks as primitive
@@ -129,6 +129,31 @@ Definition run_unpack13 (cid : nat) (req en : bool) (b : bytes) : obs :=
   | None => None
   end.
 
+Definition dump_pv (y : pv) : list N :=
+  match y with
+  | PUnit => []
+  | PBytes b => dump_bytes b
+  | PN n => [n]
+  | PNs l => dump_list dump_one l
+  | PBs l => dump_list dump_bytes l
+  | PPair p => dump_pair p
+  | PPairs l => dump_list dump_pair l
+  | PNB x => fst x :: dump_bytes (snd x)
+  | PNBs l => dump_list (fun x => fst x :: dump_bytes (snd x)) l
+  | PNsB x => dump_list dump_one (fst x) ++ dump_bytes (snd x)
+  | PBBs l => dump_list (fun x => dump_bytes (fst x) ++ dump_bytes (snd x)) l
+  | PPsk x => dump_list (fun i => dump_bytes (fst i) ++ [snd i]) (fst x) ++ dump_list dump_bytes (snd x)
+  end.
+Definition dump_exts (l : list extv) : list N := dump_list (fun e => ev_type e :: dump_pv (ev_val e)) l.
+Definition dump_random (r : N * bytes) : list N := fst r :: snd r.
+Definition dump_ch (x : ch_fixed * list extv) : list N :=
+  let '((v, (r, (sid, (ck, (suites, cms))))), exts) := x in
+  dump_pair v ++ dump_random r ++ dump_bytes sid ++ dump_bytes ck ++ dump_list dump_one suites ++
+  dump_list dump_one cms ++ dump_exts exts.
+Definition dump_sh (x : sh_fixed * list extv) : list N :=
+  let '((v, (r, (sid, (suite, cm)))), exts) := x in
+  dump_pair v ++ dump_random r ++ dump_bytes sid ++ [suite; cm] ++ dump_exts exts.
+
 (* None: the input is outside what the model covers (skipped and counted by the driver) *)
 Definition run (id : N) (ctx : list N) (b : bytes) : option obs :=
   match id with
@@ -154,6 +179,16 @@ Definition run (id : N) (ctx : list N) (b : bytes) : option obs :=
   | 21 => Some (run_crec13 (N.to_nat (ctxn ctx 0)) b)
   | 22 => if (hd0 b =? 22) && negb (hs_in_model (skipn 13 b)) then None else Some (run_prec13 b)
   | 23 => Some (run_unpack13 (N.to_nat (ctxn ctx 0)) (ctxn ctx 1 =? 1) (ctxn ctx 2 =? 1) b)
+  | 101 => Some (run_w w_client_hello dump_ch b)
+  | 102 => Some (run_w w_server_hello dump_sh b)
+  | 105 => Some (run_w w_new_session_ticket
+                   (fun x => let '((lt, (aa, (nonce, tk))), exts) := x in
+                             [lt; aa] ++ dump_bytes nonce ++ dump_bytes tk ++ dump_exts exts) b)
+  | 106 => Some (run_w w_encrypted_extensions dump_exts b)
+  | 107 => Some (run_w w_certificate13
+                   (fun x => dump_bytes (fst x) ++
+                             dump_list (fun e => dump_bytes (fst e) ++ dump_exts (snd e)) (snd x)) b)
+  | 108 => Some (run_w w_cert_request13 (fun x => dump_bytes (fst x) ++ dump_exts (snd x)) b)
   | 103 => Some (run_w (w_ske (ctxn ctx 0))
                    (fun x => let '(hint, (ct, (cv, (pk, (h, (s, sg)))))) := x in
                              dump_obytes hint ++ [ct; cv] ++ dump_bytes pk ++ [h; s] ++ dump_bytes sg) b)
@@ -162,6 +197,7 @@ Definition run (id : N) (ctx : list N) (b : bytes) : option obs :=
                              dump_list dump_one tys ++ dump_list dump_pair sigs ++ dump_list dump_bytes cas) b)
   | 119 => Some (run_w w_ext_list (dump_list (fun x => fst x :: dump_bytes (snd x))) b)
   | 120 => Some (run_w w_connection_id dump_bytes b)
+  | 121 => Some (run_w w_sni dump_bytes b)
   | 122 | 131 | 132 | 137 | 143 => Some (run_w w_empty (fun _ => []) b)
   | 123 => Some (run_w w_alpn_offer (dump_list dump_bytes) b)
   | 124 => Some (run_w w_alpn_selection dump_bytes b)
